@@ -190,8 +190,11 @@ PROPS = {
     "C03": dict(
         lean_modules=["PalomaModel.Props.C03", "PalomaModel.Props.Translated.C03", "PalomaModel.Props.Consts.C03"], gen=["Auth.lean", "Translated.lean", "ConstTable.lean"],
         harness_test="TestC03",
+        # the scheduler histories (TestC17) run here for their `create` / `jobs` observables: "a user's jobs" change only through
+        # that user's own transactions — a create by somebody else under any spelling of the id never alters a stored job
+        extra_tests=[{"test": "TestC17", "dir": "C17", "n_quick": 150, "n_thorough": 1500}],
         n_quick=700, n_thorough=1500, thorough_seeds=6, timeout_quick=900,
-        spec_ops=["dnh", "cbh", "lnh"],  # directed histories: denom hand-over, batch-confirmation attempts, light-node licences / client records
+        spec_ops=["dnh", "cbh", "lnh", "create", "jobs"],  # directed histories: denom hand-over, batch-confirmation attempts, light-node licences / client records
         rule="multi-message transactions incl. messages that declare NO signer and ride on other messages' signatures (creator = sender / grantee / victim / third party), light-node histories (licences by sale, purchase or legacy grant; register / authenticate as time jumps; strangers running the open migration or acting in another principal's name with and without a fee grant); "
              "full application; for every one of the 41 Msg RPCs (message zoo) and every identity-bearing field: signed by A for itself (B bystander); signed by A with creator = B without / with a fee grant B->A; creator A with one identity field pointed at B; "
              "message built for B but creator/signer A; governance-only messages signed by a user (three variants) and delivered as executed proposal; forged metadata.signers; the monitor diffs every store entry attributed to the victim "
